@@ -10,6 +10,8 @@ import (
 func c04Prelude() []Stmt {
 	return []Stmt{
 		def("cnt", il(0)),
+		def("on", bl(true)),
+		def("off", bl(false)),
 		def("xs", SliceLit{TInt, []Expr{il(10), il(20), il(30), il(40), il(50)}}),
 		def("str", sl("abcdefgh")),
 		VarDecl{Names: []string{"dst"}, Type: TSliceInt},
@@ -72,6 +74,28 @@ func c04Templates() []exprTemplate {
 		{"concat", TString, bin("+", bin("+", Sf(1, "a"), Sf(2, "b")), Sf(3, "c"))},
 		{"copy-source", TInt, Copy{"dst", call("sli", il(1))}},
 		{"slice-literal-len", TInt, Len{SliceLit{TInt, []Expr{T(1), T(2), T(3)}}}},
+		// constant operands: an absorbing or neutral literal (or a variable holding it) next to an effectful
+		// operand decides the value but not whether the operand is evaluated
+		{"false-and-call", TBool, logic("&&", bl(false), Bf(1, true))},
+		{"true-or-call", TBool, logic("||", bl(true), Bf(1, false))},
+		{"true-and-call", TBool, logic("&&", bl(true), Bf(1, true))},
+		{"false-or-call", TBool, logic("||", bl(false), Bf(1, true))},
+		{"call-and-false", TBool, logic("&&", Bf(1, true), bl(false))},
+		{"call-or-true", TBool, logic("||", Bf(1, false), bl(true))},
+		{"const-var-and-call", TBool, logic("&&", vr("off"), Bf(1, true))},
+		{"const-var-or-call", TBool, logic("||", vr("on"), Bf(1, false))},
+		{"group-false-and-call-or-call", TBool, logic("||", Group{logic("&&", bl(false), Bf(1, true))}, Bf(2, true))},
+		{"not-false-or-call", TBool, logic("||", Not{bl(false)}, Bf(1, true))},
+		{"false-and-compare-of-calls", TBool, logic("&&", bl(false), cmp("<", T(1), T(2)))},
+		{"zero-times-call", TInt, bin("*", il(0), T(1))},
+		{"call-times-zero", TInt, bin("*", T(1), il(0))},
+		{"call-times-one", TInt, bin("*", T(1), il(1))},
+		{"zero-plus-call", TInt, bin("+", il(0), T(1))},
+		{"call-minus-same-call", TInt, bin("-", T(1), T(1))},
+		{"zero-divided-by-call", TInt, bin("/", il(0), T(1))},
+		{"call-mod-one", TInt, bin("%", T(1), il(1))},
+		{"empty-plus-call", TString, bin("+", sl(""), Sf(1, "a"))},
+		{"same-call-equal", TBool, cmp("==", T(1), T(1))},
 	}
 }
 
@@ -144,6 +168,22 @@ func c04Families(c *Check) []BashCase {
 			stm = append(c04Prelude(), ifs(bl(false), Panic{tpl.e}), ifs(cmp("==", vr("cnt"), il(0)), Panic{tpl.e}), pr(sl("not reached")))
 			cases = append(cases, BashCase{Key: fmt.Sprintf("E/%s/panic-arg", tpl.name), Prog: SingleFile(stm)})
 		}
+	}
+	// loop conditions that measure something the body changes, or that call: evaluated before every iteration
+	loops := map[string][]Stmt{
+		"for3-len-of-call":        {For{Kind: ForThree, Init: def("i", il(0)), Cond: cmp("<", vr("i"), Len{Sf(1, "abc")}), Post: IncDec{"i", true}, Body: []Stmt{pr(sl("body"), vr("i"))}}},
+		"for3-len-of-growing-slice": {def("q", SliceLit{TInt, []Expr{il(1)}}), For{Kind: ForThree, Init: def("i", il(0)), Cond: cmp("<", vr("i"), Len{vr("q")}), Post: IncDec{"i", true}, Body: []Stmt{ifs(cmp("<", Len{vr("q")}, il(4)), SliceSet{"q", Len{vr("q")}, bin("+", vr("i"), il(10))}), pr(sl("body"), vr("i"), Len{vr("q")})}}, pr(Len{vr("q")})},
+		"for3-len-of-growing-string": {def("w", sl("a")), For{Kind: ForThree, Init: def("i", il(0)), Cond: cmp("<", vr("i"), Len{vr("w")}), Post: IncDec{"i", true}, Body: []Stmt{ifs(cmp("<", Len{vr("w")}, il(4)), OpAssign{"w", "+", sl("b")}), pr(sl("body"), vr("i"), vr("w"))}}},
+		"for3-bound-variable-changes": {def("lim", il(2)), For{Kind: ForThree, Init: def("i", il(0)), Cond: cmp("<", vr("i"), vr("lim")), Post: IncDec{"i", true}, Body: []Stmt{ifs(cmp("==", vr("i"), il(1)), set("lim", il(4))), pr(sl("body"), vr("i"))}}},
+		"for3-call-bound":         {For{Kind: ForThree, Init: def("i", il(0)), Cond: cmp("<", vr("i"), T(3)), Post: IncDec{"i", true}, Body: []Stmt{pr(sl("body"), vr("i"))}}},
+		"for3-len-of-slice-call":  {For{Kind: ForThree, Init: def("i", il(0)), Cond: cmp("<", vr("i"), Len{call("sli", il(1))}), Post: IncDec{"i", true}, Body: []Stmt{pr(sl("body"), vr("i"))}}},
+		"for3-post-calls":         {For{Kind: ForThree, Init: def("i", T(0)), Cond: cmp("<", vr("i"), il(3)), Post: OpAssign{"i", "+", T(1)}, Body: []Stmt{pr(sl("body"), vr("i"))}}},
+		"cond-len-of-shrinking":   {def("w", sl("abcd")), For{Kind: ForCond, Cond: cmp(">", Len{vr("w")}, il(0)), Body: []Stmt{set("w", Substr{"w", il(1), nil}), pr(sl("body"), framed(vr("w")))}}},
+		"cond-reversed-operands":  {def("q", SliceLit{TInt, []Expr{il(1)}}), For{Kind: ForThree, Init: def("i", il(0)), Cond: cmp(">", Len{vr("q")}, vr("i")), Post: IncDec{"i", true}, Body: []Stmt{ifs(cmp("<", Len{vr("q")}, il(3)), SliceSet{"q", Len{vr("q")}, il(5)}), pr(sl("body"), vr("i"))}}},
+	}
+	for _, k := range sortedStmtKeys(loops) {
+		cases = append(cases, BashCase{Key: "E/loop-cond/" + k + "/top", Prog: SingleFile(append(append(c04Prelude(), loops[k]...), final))})
+		cases = append(cases, BashCase{Key: "E/loop-cond/" + k + "/func", Prog: SingleFile(append(c04Prelude(), fn("ctx", nil, nil, loops[k]...), callS("ctx"), callS("ctx"), final))})
 	}
 	// control-flow positions
 	ctl := map[string][]Stmt{
